@@ -56,6 +56,7 @@ def run(ctx: Ctx) -> None:
     readonly_interval(ctx, rs)
     little_endian(ctx, py, rs)
     lookup_purity_and_handlers(ctx, py)
+    overlay_extent_and_precedence(ctx, py, rs)
 
 
 # ---------------------------------------------------------------------------
@@ -595,3 +596,85 @@ def lookup_purity_and_handlers(ctx: Ctx, py: PyProgram) -> None:
     if pairs < 1:
         raise AnalysisError("PCE500Memory.__init__: no overlay with a read/write closure pair found (memory card window expected)")
     ctx.instance("C11.6/lookup-purity", "lookup functions carry no state between accesses; read/write handler pairs index their store identically", n, 4)
+
+
+def overlay_extent_and_precedence(ctx: Ctx, py: PyProgram, rs: RustProgram) -> None:
+    """(a) A data overlay answers exactly the bytes it holds: wherever Python builds MemoryOverlay(start=S, end=E, data=bytearray(X))
+    with S, E and the length of X related symbolically, E - S + 1 == len (an end that is one too far makes the byte after a ROM image
+    read-only; one too short exposes the last byte to the base memory).  (b) Layers are consulted in the same order for stores as for
+    loads: in the Rust store path the overlay dispatch comes before the base map's read-only test, so a writable overlay placed
+    inside a read-only range keeps its stores (loads already come from the overlay)."""
+    from .. import linform
+    mod = py.module(MEM_PY)
+    n = 0
+    for fn in [f for f in ast.walk(mod.tree) if isinstance(f, ast.FunctionDef)]:
+        defs = {a.targets[0].id: a.value for a in ast.walk(fn) if isinstance(a, ast.Assign) and len(a.targets) == 1 and isinstance(a.targets[0], ast.Name)}
+        ann = {a.arg: unparse(a.annotation) for a in fn.args.args if a.annotation is not None}
+        for c in ast.walk(fn):
+            if not (isinstance(c, ast.Call) and unparse(c.func).endswith("MemoryOverlay")):
+                continue
+            kw = {k.arg: k.value for k in c.keywords}
+            if not {"start", "end", "data"} <= set(kw):
+                continue
+            d = kw["data"]
+            hops = 0
+            while isinstance(d, ast.Name) and d.id in defs and hops < 3:
+                d = defs[d.id]
+                hops += 1
+            if not (isinstance(d, ast.Call) and unparse(d.func) == "bytearray" and len(d.args) == 1):
+                continue
+            x = d.args[0]
+            xs = x
+            while isinstance(xs, ast.Name) and xs.id in defs:
+                xs = defs[xs.id]
+            is_int = isinstance(xs, ast.Name) and ann.get(xs.id) == "int"
+            length = xs if is_int else ast.Call(func=ast.Name(id="len", ctx=ast.Load()), args=[xs], keywords=[])
+            # len(<copy of the data>) is the length of the data
+            class _Len(ast.NodeTransformer):
+                def visit_Call(self, node: ast.Call) -> Any:
+                    self.generic_visit(node)
+                    if isinstance(node.func, ast.Name) and node.func.id == "len" and len(node.args) == 1 and isinstance(node.args[0], ast.Name):
+                        v = defs.get(node.args[0].id)
+                        if isinstance(v, ast.Call) and unparse(v.func) in ("bytearray", "bytes") and len(v.args) == 1 and not (isinstance(v.args[0], ast.Name) and ann.get(v.args[0].id) == "int"):
+                            return ast.Call(func=node.func, args=[v.args[0]], keywords=[])
+                    return node
+            import copy
+            defs = {k_: _Len().visit(copy.deepcopy(v_)) for k_, v_ in defs.items()}
+            try:
+                ends = linform.alternatives(_Len().visit(copy.deepcopy(kw["end"])), defs)
+                starts = linform.alternatives(kw["start"], defs)
+                lens = linform.alternatives(length, defs)
+            except linform.NotLinear as e:
+                raise AnalysisError(f"{fn.name}: overlay bounds outside the linear fragment: {e}")
+            if len(starts) != 1 or len(lens) != 1:
+                continue
+            s0, l0 = next(iter(starts)), next(iter(lens))
+            want = linform._add(linform._add(s0, l0), (1, frozenset()), -1)       # S + len - 1
+            # only when the bounds are expressed through the data length at all (a fixed window filled by a caller-sized image is not)
+            if not any(dict(e_[1]).keys() & dict(l0[1]).keys() for e_ in ends):
+                continue
+            n += 1
+            bad = [e_ for e_ in ends if set(dict(e_[1])) >= set(dict(want[1])) and e_ != want]
+            if bad:
+                ctx.violation("C11.6/overlay-extent", key_of(MEM_PY, f"PCE500Memory.{fn.name}", "overlay end != start + len(data) - 1"),
+                              f"{fn.name} builds an overlay with end = {linform.show(bad[0])} over data of length {linform.show(l0)} starting at {linform.show(s0)}: the inclusive end should be {linform.show(want)}; "
+                              "the window is longer than its image, so the byte behind a read-only image silently drops stores (or, if shorter, the last byte falls through to the base memory)", f"{MEM_PY}:{c.lineno}")
+    ctx.instance("C11.6/overlay-extent", "data overlays built from a start and a data length: inclusive end == start + len - 1", n, 2)
+    # (b)
+    rel = rs.file_for(MEM_RS)
+    m = 0
+    for fn in rs.fns_in(MEM_RS):
+        if fn.impl_ty != "MemoryImage" or fn.body is None:
+            continue
+        ov = [c for c in walk(fn.body) if c.get("k") == "mcall" and expr_text(c["recv"]) == "self" and "overlay" in c["m"] and c["m"].startswith("store")]
+        ro = [c for c in walk(fn.body) if c.get("k") == "mcall" and expr_text(c["recv"]) == "self" and c["m"] == "is_read_only_range"]
+        if not ov or not ro:
+            continue
+        g = cfgmod.build_rs(fn.node, fn.qual)
+        for r_ in ro:
+            m += 1
+            rn = g.node_of(r_)
+            if rn is None or not any(g.node_of(o) is not None and g.dominates(g.node_of(o), rn) for o in ov):
+                ctx.violation("C11.4/overlay-before-readonly", key_of(rel, fn.qual, "read-only test before the overlay dispatch"),
+                              f"{fn.qual} tests is_read_only_range before it offers the store to the overlays: a writable overlay mapped inside a read-only range loses every store while loads still come from the overlay", f"{rel}:{r_['ln']}")
+    ctx.instance("C11.4/overlay-before-readonly", "Rust store paths that consult both overlays and the read-only map: overlay dispatch dominates the read-only test", m, 1)
